@@ -811,9 +811,11 @@ def oracle(I, ctx, case, rng):
             p, k, v = rng.choice(ll)
             lst = subtree(t4, p)
             lst[1].append(copy.deepcopy(lst[1][-1]))
-            lo, _, _ = run_ser(I, prog, t4, D)
+            lo, lout, ltree = run_ser(I, prog, t4, D)
             n += 1
-            if not ((lo[0] == "err" and lo[1] == ERR["UnusedTargetError"]) or (lo[0] == "ok" and lo[3] == ERR["UnusedTargetError"])):
+            # (a computed_value on the list target overwrites the extra element: then nothing differs)
+            overwritten = lo[0] == "ok" and lo[3] == 0 and lout == out and ltree == tree
+            if not ((lo[0] == "err" and lo[1] == ERR["UnusedTargetError"]) or (lo[0] == "ok" and lo[3] == ERR["UnusedTargetError"]) or overwritten):
                 ctx.violation("unused-list-element-accepted", dict(inp, ctx=t4), "description with a list element no primitive consumes was serialised",
                               observed=lo[:1] + lo[3:], expected="UnusedTargetError")
         # (M) a missing value (no default) must make serialisation fail
